@@ -171,6 +171,8 @@ pub(crate) struct Stats {
     pub forgets: u64,
     pub over_window_writes: u64,
     pub short_at_old_boundary: u64,
+    pub short_picks_elsewhere: u64,
+    pub out_of_order_picks: u64,
     pub step_checks: u64,
     pub patterns: BTreeSet<u64>,
     pub contexts: BTreeSet<u64>,
@@ -342,6 +344,8 @@ pub(crate) fn check_pick(
     got: &Result<(Range<u64>, bool, Vec<u8>), String>,
     st: &mut Stats,
     cuts: &BTreeSet<u64>,
+    pred: &dyn Fn(u64) -> Option<usize>,
+    flow: usize,
 ) -> Result<(), (String, String)> {
     match (exp, got) {
         (Expect::Nothing, Err(_)) | (Expect::NoRoom { .. }, Err(_)) => {
@@ -372,7 +376,7 @@ pub(crate) fn check_pick(
                     ));
                 }
             }
-            let (start, end, col) = match exp {
+            let (mut start, mut end, mut col) = match exp {
                 Expect::Take { start, end, col } => (*start, *end, *col),
                 Expect::Nothing => {
                     return Err(("offer-unofferable".into(), format!("offered {range:?} although nothing is offerable under these limits; map: {}", m.shape_string())));
@@ -381,7 +385,21 @@ pub(crate) fn check_pick(
                     return Err(("offer-noroom".into(), format!("offered {range:?} although the predicate denies offset {start}")));
                 }
             };
-            // (2) lowest offset first: lost bytes are re-offered before anything higher
+            // (2) lowest offset first: lost bytes are re-offered before anything higher.  The property does not
+            // fix the order (only that lost bytes ARE offered again, which the final drain decides), so another
+            // offerable start is tolerated: a lost run, or the lowest never-sent byte, within the limits at that offset.
+            if range.start != start && range.end > range.start {
+                let s0 = range.start as usize;
+                let c = m.col[s0];
+                let offerable = c == L || (c == P && flow > 0 && m.col.iter().position(|x| *x == P) == Some(s0));
+                let alt_end = if offerable { pred(range.start).map(|avail| m.run_end(s0).min(s0.saturating_add(if c == L { avail } else { avail.min(flow) }))) } else { None };
+                if let Some(e) = alt_end
+                    && range.end as usize <= e
+                {
+                    st.out_of_order_picks += 1;
+                    (start, end, col) = (range.start, e as u64, c);
+                }
+            }
             if range.start != start {
                 return Err((
                     format!("pick-order:{}-skipped", CNAME[col as usize]),
@@ -389,10 +407,14 @@ pub(crate) fn check_pick(
                 ));
             }
             // (3) extent: to the end of that colour run, clipped by the limits
-            // A shorter offer is legal (the property does not fix the extent) but only when it stops at a
-            // position where an earlier operation cut the map (un-merged neighbours of one colour).
-            let end = if range.end < end && range.end > range.start && cuts.contains(&range.end) {
-                st.short_at_old_boundary += 1;
+            // A shorter, non-empty offer is legal (the property does not fix the extent); the real buffer is
+            // only ever short at a position where an earlier operation cut the map (counted separately).
+            let end = if range.end < end && range.end > range.start {
+                if cuts.contains(&range.end) {
+                    st.short_at_old_boundary += 1;
+                } else {
+                    st.short_picks_elsewhere += 1;
+                }
                 range.end
             } else {
                 end
@@ -679,7 +701,7 @@ fn run_sndbuf(cseed: u64, cap0: u64, mut src: Source) -> Outcome {
                         cuts.insert(r.start);
                         cuts.insert(r.end);
                     }
-                    check_pick(&mut m, &exp, &got, &mut st, &cuts)?;
+                    check_pick(&mut m, &exp, &got, &mut st, &cuts, &|o| pred.eval(o), flow)?;
                 }
                 Op::Ack(a, b) => {
                     let before = m.shape_string();
@@ -737,7 +759,7 @@ fn run_sndbuf(cseed: u64, cap0: u64, mut src: Source) -> Outcome {
                             cuts.insert(r.start);
                             cuts.insert(r.end);
                         }
-                        check_pick(&mut m, &exp, &g, &mut st, &cuts).and_then(|_| check_observables(&m, &buf, &mut st))
+                        check_pick(&mut m, &exp, &g, &mut st, &cuts, &|_| Some(1 << 20), 0).and_then(|_| check_observables(&m, &buf, &mut st))
                     }
                     Err(p) => Err((format!("panic:{}", vcore::panics::short_location(&p.location)), format!("pick_up panicked: {} (lost byte {i})", p.message))),
                 };
@@ -920,7 +942,7 @@ fn run_crypto(cseed: u64, mut src: Source) -> Outcome {
                         let r = room;
                         let exp = m.expect(&|o| CryptoFrame::estimate_max_capacity(r, o), usize::MAX);
                         let fresh = matches!(exp, Expect::Take { col, .. } if col == P);
-                        check_pick(&mut m, &exp, &Ok((a..b, fresh, d)), &mut st, &cuts)
+                        check_pick(&mut m, &exp, &Ok((a..b, fresh, d)), &mut st, &cuts, &|o| CryptoFrame::estimate_max_capacity(r, o), usize::MAX)
                             .map_err(|(c, d)| (c, format!("load(cap {cap}, force {force}) frame #{k} with {room} bytes of room: {d}")))?;
                         let sz = 1 + varint_len(a) + varint_len(b - a) + (b - a) as usize;
                         if sz > room {
@@ -1007,6 +1029,8 @@ fn merge_stats(rep: &mut Report, leg: &str, st: &Stats) {
     rep.add(&format!("{leg}_forget_sent_state"), st.forgets);
     rep.add(&format!("{leg}_writes_beyond_window"), st.over_window_writes);
     rep.add(&format!("{leg}_short_offers_at_old_boundary"), st.short_at_old_boundary);
+    rep.add(&format!("{leg}_short_offers_elsewhere_tolerated"), st.short_picks_elsewhere);
+    rep.add(&format!("{leg}_out_of_order_offers_tolerated"), st.out_of_order_picks);
     rep.add(&format!("{leg}_step_checks"), st.step_checks);
     rep.max("max_colour_runs", st.max_runs);
     for h in &st.patterns {
